@@ -57,13 +57,13 @@ func gsvdCase(t *vlib.T, r, p, c int, fa, fb string, v int, rep string) {
 	_, rankB := ratElim(B)
 	fmax := float64(max(r, p, c))
 	t.Nontrivial()
-	// Inputs on which Dggsvp3's missing column pivoting / broken RQ clean-up matter
-	// (see NOTES.md findings): anything but prefix-diagonally-dominant full-rank pairs.
+	// Inputs on which Dggsvp3's missing column pivoting matters (see NOTES.md finding 4):
+	// anything but prefix-diagonally-dominant full-rank pairs.
 	plain := func(f string) bool { return f == "dd" || f == "graded" }
 	suspect := rankAB < c || !plain(fa) || !plain(fb)
 	fail := func(format string, a ...any) {
 		if suspect {
-			finding(t, "factors", "dggsvp3-no-pivoting-or-rq-cleanup", format, a...)
+			finding(t, "factors", "dggsvp3-no-pivoting", format, a...)
 		} else {
 			t.Failf(format, a...)
 		}
